@@ -404,7 +404,10 @@ public:
       i[k] = (long)std::floor((p[k] - _a[k]) / (4. * _u[k]));
     return i[0] * _n[1] * _n[2] + i[1] * _n[2] + i[2];
   }
+  std::vector< long > *_record = nullptr; // cells the function is evaluated for (block-wise traversal)
   virtual DensityValues operator()(const Cell &cell) {
+    if (_record)
+      _record->push_back(flat(cell.get_cell_midpoint()));
     DensityValues v;
     v.set_number_density(1.);
     v.set_ionic_fraction(ION_H_n, 0.25 * _kap[flat(cell.get_cell_midpoint())]);
@@ -449,7 +452,22 @@ static int do_cart(const char *in, const char *outname) {
         order[fl] = it;
       volsum += it.get_volume();
     }
-    out << "{\"visit\":" << jl(visit) << ",\"ncell\":" << grid.get_number_of_cells()
+    // block-wise traversal (the way the cell range is divided over processes): a block [b, e) of the enumeration is
+    // visited through the traversal job market (DensityGrid::set_densities); which cells does it touch?
+    std::string blocks = "[";
+    {
+      const long cuts[5] = {0, ncell / 3, ncell / 3, (2 * ncell) / 3 + (ncell > 2 ? 1 : 0), ncell};
+      for (int k = 0; k < 4; ++k) {
+        std::vector< long > rec;
+        function._record = &rec;
+        std::pair< cellsize_t, cellsize_t > sub = std::make_pair((cellsize_t)cuts[k], (cellsize_t)cuts[k + 1]);
+        grid.set_densities(sub, function, 1);
+        function._record = nullptr;
+        blocks += std::string(k ? "," : "") + "[" + std::to_string(cuts[k]) + "," + std::to_string(cuts[k + 1]) + "," + jl(rec) + "]";
+      }
+    }
+    blocks += "]";
+    out << "{\"visit\":" << jl(visit) << ",\"blocks\":" << blocks << ",\"ncell\":" << grid.get_number_of_cells()
         << ",\"volsum\":" << volsum / (64. * ncell * u[0] * u[1] * u[2]) << ",\"loc\":[";
     for (long i = 0; i < npts; ++i) {
       long p[3];
